@@ -374,6 +374,11 @@ def main(mod, pid, argv):
         else:
             run_witnesses(ctx, mod)
             mod.run(ctx)
+        if getattr(mod, "SUITE_MONITOR", False):
+            # the repository's own tests and doctests as one more workload, judged by the
+            # monitors attached to the real functions (rv/monitors.py)
+            from . import suite
+            suite.absorb(ctx, pid)
         return finish(ctx, mod)
     except HarnessError as e:
         print("HARNESS-ERROR property=%s %s" % (pid, e))
